@@ -191,6 +191,29 @@ def make_nobytes(did, line_fn, text):
     return Ob("C05:nobytes:" + did, body, timeout=60, tags={"part": "nobytes", "case": did}, text=text)
 
 
+def make_nobytes2(did, line):
+    """a directive that emits nothing, with a label / symbol / expression operand, between two NOPs: either rejected with
+    a diagnostic or the image is exactly the two NOPs and the directive's size is 0"""
+    def body(ctx):
+        lines = ["Q EQU 3", "Q1 EQU 1", "A NOP", line, "E NOP"]
+        out = assemble(lines)
+        info = {"lines": lines, "outcome": out.describe()}
+        if out.kind in ("diag", "internal", "loop"):
+            return True, info                       # rejection is allowed here; internal errors are C13's
+        try:
+            img = image(out.program)
+        except Exception as e:  # noqa: BLE001
+            info["outcome"] = "accepted, then %s in get_binary_array" % type(e).__name__
+            return False, info
+        st = out.program.statements[3]
+        ok = img == [0x12, 0x12] and st.code_pkg.size == 0 and out.program.statements[4].code_pkg.address.int == 1
+        info["image"] = img
+        if ok:
+            return True, info
+        return ctx.known(PID, {"part": "nobytes", "case": did}, {"kind": "ok", "img": img}), info
+    return Ob("C05:nobytes2:" + did, body, timeout=60, tags={"part": "nobytes", "case": did}, text=line, r4=False)
+
+
 PRINTABLE = [chr(c) for c in range(32, 127)]
 DELIMS = ['"', "'", "/", ":", "#", "<", ">", "$", "%", "!", "&", "*", "(", "=", "?", "^", ".", "@", "+", "-", "["]
 #          delimiters inside the documented operand character set (comma and ] excluded: list / bracket syntax)
@@ -321,6 +344,12 @@ def obligations(tier, seed):
     obs.append(make_nobytes("END-op", lambda ctx: [" END A"], "END A"))
     obs.append(make_nobytes("END-lit", lit_line(" END %s", "H4"), "END <H4>"))
     obs.append(make_nobytes("NAM-END", lambda ctx: [" NAM X", " SETDP 0", "K EQU 5", " END E"], "NAM/SETDP/EQU/END"))
+    # the same directives with a label, a symbol or an expression as operand (accepted or rejected - never bytes)
+    for did, ln in (("SETDP-label", " SETDP A"), ("SETDP-later-label", " SETDP E"), ("SETDP-expr", " SETDP E/256"), ("SETDP-sym", " SETDP Q"),
+                    ("EQU-label", "K EQU A"), ("EQU-later-label", "K EQU E"), ("EQU-expr", "K EQU E+1"), ("EQU-sym", "K EQU Q"),
+                    ("END-expr", " END A+1"), ("END-later", " END E"), ("NAM-label", " NAM A"), ("ORG-same", " ORG $0001"),
+                    ("ORG-sym-same", " ORG Q1")):
+        obs.append(make_nobytes2(did, ln))
     for kind in ("FCB", "FDB"):
         for variant in ("plain", "expr", "after", "trailing", "first"):
             obs.append(make_list_labels(kind, variant))
